@@ -14,7 +14,7 @@ import (
 var v2SwitchAllowances = map[string]switchAllowance{}
 
 func ruleV2Dispatch(e *Engine, r *Reporter) {
-	r.Rule("v2-dispatch-fail-closed", "every switch of the weighted-graph engine over edge kinds, node kinds or strategy kinds covers all of them or ends in a default that fails (ErrPanicRequest / error), so an unknown shape is never answered", 6)
+	r.Rule("v2-dispatch-fail-closed", "every switch of the weighted-graph engine over edge kinds, node kinds or strategy kinds covers all of them or ends in a default that fails (ErrPanicRequest / error), so an unknown shape is never answered", 4)
 	for _, s := range e.valueSwitches() {
 		if short(s.Pkg.PkgPath) != "internal/check" {
 			continue
